@@ -1,4 +1,7 @@
 """C02 Conflict-free (LL(1)) grammars are parsed exactly."""
+import contextlib
+import io
+
 import vf
 vf.use_repo()
 from ak import llparser  # noqa: E402
@@ -136,8 +139,6 @@ def run_case(ctx, mon, cfg_id, terms, prods, inputs_spec=None, rng=None, any_spe
     ctx.count("grammars")
     if sum(map(ord, str(sorted(prods)))) % 3 == 0:
         # the parser's self description is printed before it is used
-        import contextlib
-        import io
         for parser in parsers.values():
             try:
                 with contextlib.redirect_stdout(io.StringIO()):
@@ -197,8 +198,13 @@ def run_case(ctx, mon, cfg_id, terms, prods, inputs_spec=None, rng=None, any_spe
                     lines = []
                     ctx.count("empty_texts_given_as_no_line_at_all")
                 # (a text given as lines comes as a list or, every other time, as a one-shot iterator)
-                tree = parser.parse((lines if len(text) % 2 else iter(lines)) if as_lines else text,
-                                    do_cleanup=False)
+                # (every seventh text is parsed with the documented trace switched on: the messages go nowhere)
+                with_trace = len(text) % 7 == 3
+                if with_trace:
+                    ctx.count("texts_parsed_with_the_trace_on")
+                with contextlib.redirect_stdout(io.StringIO()):
+                    tree = parser.parse((lines if len(text) % 2 else iter(lines)) if as_lines else text,
+                                        do_cleanup=False, **({'debug': True} if with_trace else {}))
                 verdicts[smart] = True
             except llparser.ParsingError:
                 verdicts[smart] = False
